@@ -1,0 +1,37 @@
+//go:build verif
+
+package finisher
+
+// Contracts for govc (property C01). Comment-only file: it adds no code.
+//
+// finisher.worker: the decision taken for every seed that arrives. Ghost locals count what
+// the loop did: nRecv seeds received (channel open), nProduced handed to the source as fresh,
+// nFeedback sent back into the pipeline, nFinished marked finished in the reactor, nAcked
+// reported to the source as finished; `marked` is the seed of the last MarkAsFinished.
+// [one-outcome]: every received seed gets exactly one of the three outcomes; the call-site
+// assertions tie each outcome to its condition: a seed is marked finished only when
+// CompleteAndCheck said the whole tree is done (models contract, C11: no node of the tree still
+// awaits work), and it is reported to the source only after - and once per - MarkAsFinished.
+// The reactor calls are used by contract (C12); their thread-protocol preconditions (this
+// worker owns the seed it received) are assumed here.
+//@ func (*finisher).worker
+//@   property C01
+//@   attr assume-pre MarkAsFinished,MarkAsFinished:owns,ReceiveFeedback,ReceiveFeedback:owns
+//@   requires f != nil
+//@   local nRecv int = 0
+//@   local nProduced int = 0
+//@   local nFeedback int = 0
+//@   local nFinished int = 0
+//@   local nAcked int = 0
+//@   local marked *models.Item = nil
+//@   local ackedAtMark int = 0
+//@   after selrecv(inputCh)#1: nRecv = nRecv + ite(opOk, 1, 0)
+//@   after send(sourceProducedCh)#1: nProduced = nProduced + 1
+//@   after ReceiveFeedback(seed)#1: nFeedback = nFeedback + 1
+//@   after MarkAsFinished(seed)#1: nFinished = nFinished + 1; marked = seed; ackedAtMark = nAcked
+//@   after send(sourceFinishedCh)#1: nAcked = nAcked + 1
+//@   assert send(sourceProducedCh)#1: [fresh-only] seed.status == models.ItemFresh
+//@   assert ReceiveFeedback(seed)#1: [incomplete-only] !isComplete && models.hasWork(seed.status) // C01: a seed goes round again while some URL of its tree still awaits work
+//@   assert MarkAsFinished(seed)#1: [complete-only] isComplete && !models.hasWork(seed.status) && seed.parent == nil // C01: only after every URL in its tree has been fetched, skipped or has failed for good
+//@   assert send(sourceFinishedCh)#1: [marked-first] marked == seed && nAcked == ackedAtMark && nAcked < nFinished // C01: reported back to that queue as finished exactly once (once per MarkAsFinished, after it)
+//@   loop for invariant [one-outcome] nRecv == nProduced + nFeedback + nFinished && nAcked <= nFinished && f != nil // C01: never dropped, never reported twice
